@@ -20,8 +20,15 @@ Trace == ndJsonDeserialize(IOEnv.TRACE_FILE)
 VARIABLES l, cfg, rows, buf, exp, nout, dead, used
 vars == <<l, cfg, rows, buf, exp, nout, dead, used>>
 
-KeyTuple(row) == [i \in 1..Len(cfg.gcols) |-> KeyOf(Col(row, cfg.gcols[i]))]
-KeyVals(row)  == [i \in 1..Len(cfg.gcols) |-> IF IsNull(Col(row, cfg.gcols[i])) THEN Null ELSE Col(row, cfg.gcols[i])]
+\* grouping value of column i: the column itself, or (scalar-function key, e.g. upper(d)) its image under the
+\* function's value table cfg.gmap[i] = <<<<in, out>>, ...>> supplied with the scenario
+GVal(row, i) ==
+  LET x == Col(row, cfg.gcols[i]) IN
+  IF "gmap" \notin DOMAIN cfg \/ cfg.gmap[i] = <<>> \/ x.k # "str" THEN x
+  ELSE LET hits == {j \in 1..Len(cfg.gmap[i]) : cfg.gmap[i][j][1] = x.v} IN
+       IF hits = {} THEN x ELSE StrV(cfg.gmap[i][CHOOSE j \in hits : TRUE][2])
+KeyTuple(row) == [i \in 1..Len(cfg.gcols) |-> KeyOf(GVal(row, i))]
+KeyVals(row)  == [i \in 1..Len(cfg.gcols) |-> IF IsNull(GVal(row, i)) THEN Null ELSE GVal(row, i)]
 
 RECURSIVE HasPath(_, _)
 HasPath(x, p) == IF p = <<>> THEN TRUE ELSE x.k = "map" /\ Head(p) \in DOMAIN x.v /\ HasPath(x.v[Head(p)], Tail(p))
